@@ -296,31 +296,62 @@ func ruleTraversals(c *Check, rule string, onlyDupFree bool) {
 				bodyEntry = s
 			}
 		}
+		// candidate marks: every map (or selection flag) some branch of the function tests for "never seen"
 		var marks []ssa.Value
-		cut := engine.CutEdgesWhere(func(a engine.Atom) bool {
-			m, ok := neverSeenAtom(c, a)
-			if ok {
-				marks = append(marks, m)
+		for _, b := range t.Fn.Blocks {
+			for i := range b.Succs {
+				if a, ok := engine.EdgeAtom(b, i); ok {
+					if m, ok := neverSeenAtom(c, a); ok {
+						dup := false
+						for _, x := range marks {
+							if sameMark(x, m) {
+								dup = true
+							}
+						}
+						if !dup {
+							marks = append(marks, m)
+						}
+					}
+				}
 			}
-			return ok
-		})
-		start := firstInstrBefore(bodyEntry)
-		reach, _ := engine.PathExists(t.Fn, start, engine.IsInstr(t.Site), engine.PathQuery{CutEdge: cut})
-		if t.Kind == "recursion" && reach {
-			// the guard may sit at the top of the function instead (visited check on the parameter before the loop)
-			reach, _ = engine.PathExists(t.Fn, nil, engine.IsInstr(t.Site), engine.PathQuery{CutEdge: cut})
 		}
-		if reach {
+		start := firstInstrBefore(bodyEntry)
+		// the guard and the mark that is set must be the same map: "not in the memo" does not make a
+		// node visited-once when what gets marked is another set
+		guarded, okMark := false, false
+		for _, m := range marks {
+			cut := engine.CutEdgesWhere(func(a engine.Atom) bool {
+				x, ok := neverSeenAtom(c, a)
+				return ok && sameMark(x, m)
+			})
+			reach, _ := engine.PathExists(t.Fn, start, engine.IsInstr(t.Site), engine.PathQuery{CutEdge: cut})
+			if t.Kind == "recursion" && reach {
+				// the guard may sit at the top of the function instead (visited check on the parameter before the loop)
+				reach, _ = engine.PathExists(t.Fn, nil, engine.IsInstr(t.Site), engine.PathQuery{CutEdge: cut})
+			}
+			if reach {
+				continue
+			}
+			guarded = true
+			if markAlwaysSet(c, t, []ssa.Value{m}) {
+				okMark = true
+			}
+		}
+		if !guarded {
 			c.Bad(rule, key, fmt.Sprintf("the %s at %s descends into a neighbour without a 'never seen' test: every path to a node is walked separately, which is exponential on diamond-shaped graphs (and the result lists a node once per path)", t.Kind, c.P.InstrPos(t.Site)), c.P.InstrPos(t.Site))
 			continue
 		}
 		// the mark must be set on every path
-		if !markAlwaysSet(c, t, marks) {
-			c.Bad(rule, key, "the per-node mark that guards the descent is not set on every path (conditional memoisation): unmarked nodes are re-expanded once per path reaching them", c.P.InstrPos(t.Site))
+		if !okMark {
+			c.Bad(rule, key, "the per-node mark that guards the descent is not set on every path (conditional memoisation, or the map that is tested is not the map that is marked): unmarked nodes are re-expanded once per path reaching them", c.P.InstrPos(t.Site))
 			continue
 		}
 		c.OK(rule, key, fmt.Sprintf("%s guarded by a never-seen test on a per-node mark that is always set", t.Kind), c.P.InstrPos(t.Site))
 	}
+}
+
+func sameMark(a, b ssa.Value) bool {
+	return a == b || sameSlice(a, b) || sameVar(a, b) || engine.ExprKey(a) == engine.ExprKey(b)
 }
 
 // markAlwaysSet: a MapUpdate on one of the mark maps (or a Select() call for the
